@@ -139,6 +139,50 @@ class Body:
     def normal_blocks(self):
         return sorted(self.reachable(0))
 
+    def live_blocks(self):
+        """blocks reachable when switches on compile-time constants take only their feasible edge
+        (`if cfg!(debug_assertions) { .. }` with debug assertions off, `if false`, ...)"""
+        if hasattr(self, '_live'):
+            return self._live
+        # locals assigned exactly once, from a constant
+        assigns = {}
+        for blk in self.blocks:
+            for s in blk['stmts']:
+                if s['k'] == 'assign' and not s['lhs']['p']:
+                    assigns.setdefault(s['lhs']['l'], []).append(s['rv'])
+            t = blk['term']
+            if t['k'] == 'call' and not t['dest']['p']:
+                assigns.setdefault(t['dest']['l'], []).append(None)
+        consts = {}
+        for l, rvs in assigns.items():
+            if len(rvs) == 1 and rvs[0] is not None and rvs[0]['k'] == 'use' and rvs[0]['o'].get('k') == 'const' and 'val' in rvs[0]['o']:
+                consts[l] = rvs[0]['o']['val']
+        seen = {0}
+        st = [0]
+        while st:
+            b = st.pop()
+            t = self.blocks[b]['term']
+            succ = self.succs(b)
+            if t['k'] == 'switch':
+                o = t['o']
+                val = None
+                if o.get('k') == 'const' and 'val' in o:
+                    val = o['val']
+                elif o.get('k') in ('copy', 'move') and not o['p']['p'] and o['p']['l'] in consts:
+                    val = consts[o['p']['l']]
+                if val is not None:
+                    tgt = t['otherwise']
+                    for v, tb in t['targets']:
+                        if v == val:
+                            tgt = tb
+                    succ = [tgt]
+            for s in succ:
+                if s not in seen:
+                    seen.add(s)
+                    st.append(s)
+        self._live = seen
+        return seen
+
     def sccs(self):
         """Tarjan over the non-unwinding CFG restricted to reachable blocks"""
         idx = {}
@@ -473,6 +517,10 @@ class Evaluator:
         if k == 'const':
             if o.get('fn'):
                 return ('fnptr', canon(o['fn']['path']))
+            if 'val' not in o and o.get('constdef'):
+                cv = self.named_const_value(o['constdef'])
+                if cv is not None:
+                    return cv
             m = PROMOTED_RE.search(o.get('dbg', ''))
             if m:
                 pv = self.promoted_value(st, int(m.group(1)))
@@ -482,6 +530,25 @@ class Evaluator:
                 return ('const', o['ty'], o['val'])
             return ('const', o['ty'], o['dbg'])
         return ('unknown', o.get('dbg'))
+
+    def named_const_value(self, key):
+        """value of a named (possibly generic) constant: evaluate its straight-line CTFE body"""
+        facts = self.body.facts
+        cb = facts.consts.get(key)
+        if cb is None:
+            return None
+        cache = facts.__dict__.setdefault('_constcache', {})
+        if key in cache:
+            return cache[key]
+        cache[key] = None
+        ps = Evaluator(cb, 0).run()
+        val = None
+        if ps:
+            rets = [p for p in ps if p.end == 'return']
+            if len(rets) == 1:
+                val = rets[0].ret
+        cache[key] = val
+        return val
 
     def promoted_value(self, st, idx):
         """value of the idx-th promoted constant of the current body: evaluate its (straight-line) MIR"""
@@ -1252,9 +1319,13 @@ class Facts:
         self.config = config
         self.features = j['features']
         self.bodies = {}
+        self.consts = {}   # named constants (CTFE bodies), resolved on demand when an operand refers to them
         for b in j['bodies']:
             inject_sizeof_targs(b)
-            self.bodies[b['key']] = Body(b, self)
+            if str(b.get('def_kind', '')).startswith(('Const', 'AssocConst')):
+                self.consts[b['key']] = Body(b, self)
+            else:
+                self.bodies[b['key']] = Body(b, self)
         self.adts = {a['name']: a for a in j['adts']}
         self.impls = j['impls']
 
